@@ -698,6 +698,7 @@ impl<'a> DocGen<'a> {
             let common = used.clone();
             let members = schema.possible_types(parent);
             for m in &members {
+                let member_start = items.len();
                 let mname = schema.objects[*m].name.clone();
                 // two named fragments on this member type side by side, when two with disjoint keys exist
                 {
@@ -776,7 +777,7 @@ impl<'a> DocGen<'a> {
                 if placed && cfg.fam_double_variant_sole_spread && t.chance(60) {
                     // probe shape of the open finding: `... on M { ...F }` next to another selection on M
                     let mut taken = common.clone();
-                    top_keys(&items[items.len() - 1..], &self.frags, &mut taken, &mut vec![]);
+                    top_keys(&items[member_start..], &self.frags, &mut taken, &mut vec![]);
                     let prev: Option<String> = match items.last() {
                         Some(Selection::Spread(n)) => Some(n.clone()),
                         _ => None,
@@ -790,8 +791,9 @@ impl<'a> DocGen<'a> {
                 if placed && cfg.fam_double_variant && t.chance(30) {
                     let sub = self.sel_set(t, Named::Object(*m), 0, &{
                         let mut c = common.clone();
+                        // every key this member already contributes (all its selections so far)
                         let mut tk = BTreeSet::new();
-                        top_keys(&items[items.len() - 1..], &self.frags, &mut tk, &mut vec![]);
+                        top_keys(&items[member_start..], &self.frags, &mut tk, &mut vec![]);
                         c.extend(tk);
                         c
                     });
@@ -1012,7 +1014,21 @@ pub fn gen_document(t: &mut Tape, schema: &mut Schema, cfg: &GenCfg) -> Document
                     };
                     // `zzInner` must not collide with a key of F itself (F is flattened next to it)
                     let inner = if keys.contains("zzInner") { vec![Selection::Spread(name.clone())] } else { inner };
-                    let sub = vec![Selection::Typename, Selection::Inline { on: on_name.clone(), sel: inner }];
+                    let sub = if t.chance(35) {
+                        // the cycle closes through a *variant spread*: `u { __typename ...F ... on Other { leaf } }`
+                        // (the variant struct is an alias of F; it is the alias that must be boxed)
+                        let mut sub = vec![Selection::Typename, Selection::Spread(name.clone())];
+                        let others: Vec<usize> = schema_ro.possible_types(f.ty.named).into_iter().filter(|o| *o != oi).collect();
+                        if !others.is_empty() && t.chance(70) {
+                            let o = *t.pick(&others);
+                            if let Some(lf) = schema_ro.objects[o].fields.iter().find(|lf| !lf.ty.named.is_composite()) {
+                                sub.push(Selection::Inline { on: schema_ro.objects[o].name.clone(), sel: vec![Selection::Field(FieldSel { alias: None, name: lf.name.clone(), args: vec![], sel: vec![] })] });
+                            }
+                        }
+                        sub
+                    } else {
+                        vec![Selection::Typename, Selection::Inline { on: on_name.clone(), sel: inner }]
+                    };
                     sel.push(Selection::Field(FieldSel { alias: None, name: f.name.clone(), args: vec![], sel: sub }));
                 } else if !cands.is_empty() {
                     let f = *t.pick(&cands);
@@ -1061,15 +1077,26 @@ pub fn gen_document(t: &mut Tape, schema: &mut Schema, cfg: &GenCfg) -> Document
                     let b = names::frag_name(t, &mut module_scope, &cfg.names);
                     let tn = schema_ro.objects[oi].name.clone();
                     let leaf = |alias: &str| Selection::Field(FieldSel { alias: Some(alias.into()), name: lf.name.clone(), args: vec![], sel: vec![] });
+                    // each spread of the cycle alone in its field, or next to a sibling field (then the
+                    // fragment is a flattened member, not an alias): none, one or both
+                    let sib = t.below(4);
+                    let mut sel_a = vec![Selection::Spread(b.clone())];
+                    let mut sel_b = vec![Selection::Spread(a.clone())];
+                    if sib == 1 || sib == 3 {
+                        sel_a.insert(0, leaf("sibA"));
+                    }
+                    if sib == 2 || sib == 3 {
+                        sel_b.insert(0, leaf("sibB"));
+                    }
                     g.frags.push(Fragment {
                         name: a.clone(),
                         on: tn.clone(),
-                        sel: vec![leaf("leafA"), Selection::Field(FieldSel { alias: None, name: f.name.clone(), args: vec![], sel: vec![Selection::Spread(b.clone())] })],
+                        sel: vec![leaf("leafA"), Selection::Field(FieldSel { alias: None, name: f.name.clone(), args: vec![], sel: sel_a })],
                     });
                     g.frags.push(Fragment {
                         name: b,
                         on: tn,
-                        sel: vec![leaf("leafB"), Selection::Field(FieldSel { alias: None, name: f.name.clone(), args: vec![], sel: vec![Selection::Spread(a)] })],
+                        sel: vec![leaf("leafB"), Selection::Field(FieldSel { alias: None, name: f.name.clone(), args: vec![], sel: sel_b })],
                     });
                     break;
                 }
